@@ -391,11 +391,13 @@ def run_job(job, seed, keep=False):
                 if st != 'FAILURE': continue
                 vals = m['traces'].get(k)
                 c = {'prop': k, 'desc': d, 'nondet': vals}
-                if vals is not None:
-                    is_builtin = not any(d.startswith(p) for p in ('vp:',)) and k.split('.')[-2] not in ('assertion',)
+                if '.no-body.' in k or '.unwind.' in k or d.startswith('vp: nondet log overflow') or d.startswith('recursion unwinding'):
+                    # bound too small / missing stub: tooling, never a violation
+                    c['tooling'] = True
+                elif vals is not None:
                     rc, out = replay_on_real(job, bdir, built, vals, sanitize=True)
                     c['replay_rc'] = rc; c['replay_out'] = out[-1500:]
-                    c['reproduced'] = (rc != 0)
+                    c['reproduced'] = ('VP_ASSERT_FAILED' in out) or ('AddressSanitizer' in out) or ('runtime error:' in out) or rc in (-11, -6, 134, 139)
                 R['cex'].append(c)
         else:
             R['status'] = 'broken'; R['why'] = 'cbmc verdict %s / witness %s' % (m['verdict'], w['verdict'])
